@@ -234,6 +234,7 @@ class Case:
     proved = True  # False => bounded only (never counted as proved)
     axioms = None
     allow_uncovered = ()  # outcome kinds that are legitimately unreachable in this configuration
+    also_scopes = ()  # sequence lengths at which the case is ALWAYS additionally proved (exact semantics)
     scopes = ()  # sequence lengths for the finite-scope refutation fallback (DESIGN 2.9)
     native = True  # False: the function is not reachable natively (nested function): no replay / cross-check
     ground = None  # optional: callable() -> iterable of primitive dicts: a complete finite domain
@@ -250,7 +251,11 @@ class LoopSpec:
     ``inv(ns, k)`` receives a namespace of the loop-carried variables (by name) and the number ``k`` of iterations
     completed; ``vars`` maps variable name -> sort ('int' | 'bool' | 'optint' | 'intlist' | 'pairlist' | callable)."""
 
-    def __init__(self, vars, inv, label="", decreases=None, hints=None):
+    def __init__(self, vars, inv, label="", decreases=None, hints=None, ghost_init=None, ghost_step=None):
+        # ghost_init(interp, frame) / ghost_step(interp, frame, k): specification-only updates of ghost variables
+        # (names starting with '$') before the loop and at the end of every iteration; they never touch program state
+        self.ghost_init = ghost_init
+        self.ghost_step = ghost_step
         self.vars = vars
         self.inv = inv
         self.label = label
